@@ -204,11 +204,16 @@ theorem candVars_eq (cl : ACl) (p : Nat) (vars : List Nat)
   rw [h]
   simp [List.map_map, Function.comp_def]
 
-theorem decision_agrees (U : Universe) (P : Problem) (hsoft : P.soft = []) (pref : List Nat)
-    (hp : PrefHyp U P pref) (st : St) (hs : SInv U P st) (a : Nat → Bool)
+/-- A guarded decision agrees with the assignment `a` induced by the selection `pref`, provided that for the requirement
+    decided on (of a parent that `a` selects) every candidate in `pref` is the requirement's first choice. -/
+theorem decision_agrees_core (U : Universe) (P : Problem) (hsoft : P.soft = []) (pref : List Nat)
+    (st : St) (hs : SInv U P st) (a : Nat → Bool) (v : Nat) (val : Bool) (reason : Nat)
+    (hcore : ∀ cl p r reqs cons, st.db[reason]? = some cl → cl.kind = .requires p r →
+      oParentDeps U P st.origins p = some (reqs, cons) → r ∈ reqs → a p = true →
+      ∃ c, firstChoice U r = some c ∧ ∀ d ∈ U.reqCands r, d ∈ pref → d = c)
     (hroot : a 0 = true) (hsolv : ∀ v s, oSolv st.origins v = some s → a v = pref.contains s)
     (hsat : SatDb a st.db) (hagree : ∀ e ∈ st.trail, a e.var = e.val)
-    (v : Nat) (val : Bool) (reason : Nat) (hd : decisionOK U P st v val reason = true) : a v = val := by
+    (hd : decisionOK U P st v val reason = true) : a v = val := by
   unfold decisionOK at hd
   split at hd
   · -- the root (no soft requirements)
@@ -229,7 +234,7 @@ theorem decision_agrees (U : Universe) (P : Problem) (hsoft : P.soft = []) (pref
       | requires p r =>
         rw [hk] at hm
         simp only [Bool.and_eq_true, beq_iff_eq, List.all_eq_true, bne_iff_ne, ne_eq] at hm
-        obtain ⟨⟨⟨⟨hptrue, hvmem⟩, _hnotrue⟩, hbefore⟩, horder⟩ := hm
+        obtain ⟨⟨⟨⟨⟨hptrue, hvmem⟩, _hnotrue⟩, hbefore⟩, horder⟩, _hexpl⟩ := hm
         have hclm : cl ∈ st.db := List.mem_of_getElem? hcl
         have hprov := hs.prov cl hclm
         unfold Prov at hprov
@@ -259,38 +264,8 @@ theorem decision_agrees (U : Universe) (P : Problem) (hsoft : P.soft = []) (pref
             rw [haw] at this
             exact List.contains_iff_mem.mp this.symm
           have hswc : sw ∈ U.reqCands r := h5 sw (List.mem_filterMap.mpr ⟨w, hwmem, hsw⟩)
-          -- `r` is a requirement whose first choice matters
-          have hrp : r ∈ preferredReqs U P pref := by
-            unfold preferredReqs
-            unfold oParentDeps at h1
-            cases hlp : st.origins.lookup p with
-            | none => rw [hlp] at h1; cases h1
-            | some o =>
-              rw [hlp] at h1
-              cases o with
-              | root => cases h1; exact List.mem_append_left _ h2
-              | forbid n => cases h1
-              | solvable s =>
-                simp only [] at h1
-                have hsp : s ∈ pref := by
-                  have hos : oSolv st.origins p = some s := by unfold oSolv; rw [hlp]
-                  have := hsolv p s hos
-                  rw [hap] at this
-                  exact List.contains_iff_mem.mp this.symm
-                cases hdep : U.deps s with
-                | unknown x => rw [hdep] at h1; cases h1
-                | known rs cs =>
-                  rw [hdep] at h1
-                  cases h1
-                  apply List.mem_append_right
-                  apply List.mem_flatMap.mpr
-                  refine ⟨s, hsp, ?_⟩
-                  unfold knownReqs; rw [hdep]; exact h2
-          obtain ⟨c, hfc, honly⟩ := hp.only r hrp
-          have hswc' : sw = c := by
-            rcases honly sw hswc with h | h
-            · exact h
-            · exact absurd hswp h
+          obtain ⟨c, hfc, honly⟩ := hcore cl p r reqs cons hcl hk h1 h2 hap
+          have hswc' : sw = c := honly sw hswc hswp
           subst hswc'
           -- the first candidate variable of the clause stands for the first choice
           unfold firstChoice at hfc
@@ -338,6 +313,46 @@ theorem decision_agrees (U : Universe) (P : Problem) (hsoft : P.soft = []) (pref
               rw [hev, heb, haw] at this
               cases this
       | _ => rw [hk] at hm; cases hm
+
+theorem decision_agrees (U : Universe) (P : Problem) (hsoft : P.soft = []) (pref : List Nat)
+    (hp : PrefHyp U P pref) (st : St) (hs : SInv U P st) (a : Nat → Bool)
+    (hroot : a 0 = true) (hsolv : ∀ v s, oSolv st.origins v = some s → a v = pref.contains s)
+    (hsat : SatDb a st.db) (hagree : ∀ e ∈ st.trail, a e.var = e.val)
+    (v : Nat) (val : Bool) (reason : Nat) (hd : decisionOK U P st v val reason = true) : a v = val := by
+  apply decision_agrees_core U P hsoft pref st hs a v val reason ?_ hroot hsolv hsat hagree hd
+  intro _ p r reqs cons _ _ h1 h2 hap
+  -- `r` is a requirement whose first choice matters
+  have hrp : r ∈ preferredReqs U P pref := by
+    unfold preferredReqs
+    unfold oParentDeps at h1
+    cases hlp : st.origins.lookup p with
+    | none => rw [hlp] at h1; cases h1
+    | some o =>
+      rw [hlp] at h1
+      cases o with
+      | root => cases h1; exact List.mem_append_left _ h2
+      | forbid n => cases h1
+      | solvable s =>
+        simp only [] at h1
+        have hsp : s ∈ pref := by
+          have hos : oSolv st.origins p = some s := by unfold oSolv; rw [hlp]
+          have := hsolv p s hos
+          rw [hap] at this
+          exact List.contains_iff_mem.mp this.symm
+        cases hdep : U.deps s with
+        | unknown x => rw [hdep] at h1; cases h1
+        | known rs cs =>
+          rw [hdep] at h1
+          cases h1
+          apply List.mem_append_right
+          apply List.mem_flatMap.mpr
+          refine ⟨s, hsp, ?_⟩
+          unfold knownReqs; rw [hdep]; exact h2
+  obtain ⟨c, hfc, honly⟩ := hp.only r hrp
+  refine ⟨c, hfc, fun d hd hdp => ?_⟩
+  rcases honly d hd with h | h
+  · exact h
+  · exact absurd hdp h
 
 /-! ### the invariant along a decision-guarded history -/
 
